@@ -80,6 +80,41 @@ def run(ctx):
             if it["ev"] and it["ev"][0][0] != "0":
                 failures.append((p, "forbidden", f"iteration {it['idx']} does not start on the main thread"))
                 break
+    # an iteration is a function of its start path alone: iteration k of a run, executed again as the FIRST iteration
+    # of a fresh process that loads the start path of k as its checkpoint, must produce the same record (events with
+    # clocks, end path, thread table, object table).  Anything carried over from iteration k-1 shows up here.
+    import hashlib, os, shutil
+    ckdir = os.path.join(lvlib.BUILD, "ckpt-" + ctx.pid)
+    shutil.rmtree(ckdir, ignore_errors=True)
+    os.makedirs(ckdir)
+    sample = [p for p in programs if len(lvlib.iterations(fresh.get(p) or [])[0]) > 1 and "ckpt=" not in p]
+    sample = sample[: (60 if ctx.quick else 600)]
+    with_starts = run_cmd(["run", "--starts", "--max", str(cap)], sample)
+    replayed = 0
+    for p in sample:
+        its, done = lvlib.iterations(with_starts.get(p) or [])
+        ks = sorted(set([1, 2, len(its) // 2, len(its) - 1]) & set(range(1, len(its))))
+        for k in ks:
+            it = its[k]
+            if "start" not in it:
+                continue
+            name = hashlib.sha1(f"{p}#{k}".encode()).hexdigest()[:16] + ".json"
+            open(os.path.join(ckdir, name), "w").write(it["start"])
+            q = p.replace("cfg ", f"cfg ckpt={name} ", 1)
+            r = subprocess.run([lvlib.HARNESS_BIN, "run", "--starts", "--max", "1", "--ckpt-dir", ckdir], input=q + "\n",
+                               stdout=subprocess.PIPE, stderr=subprocess.DEVNULL, text=True)
+            its2, _ = lvlib.iterations(lvlib._split_records(r.stdout).get(q, []))
+            replayed += 1
+            ctx.cov["traces_validated_against_impl"] += 1
+            if not its2 or its2[0]["lines"] != it["lines"]:
+                d = lvlib.first_diff(it["lines"], its2[0]["lines"] if its2 else [])
+                failures.append((p, "forbidden", f"iteration {k + 1} is not a function of its start path: executed first in a "
+                                 f"fresh process from that path it differs at record {d[0]}: in the run={d[1][:100]!r} "
+                                 f"fresh={d[2][:100]!r}"))
+                break
+            os.remove(os.path.join(ckdir, name))
+    shutil.rmtree(ckdir, ignore_errors=True)
+    ctx.cov["iterations_replayed_in_fresh_process"] = replayed
     # weak-memory outcomes of the fence programs must not depend on the iteration they are explored in:
     # every RC11(strong) outcome has to be explored (a clock leaking from iteration to iteration removes some)
     from gen import corpus
